@@ -8,6 +8,8 @@
 mod more;
 #[path = "c20_wide.rs"]
 mod wide;
+#[path = "c20_x.rs"]
+mod x;
 use crate::util::*;
 use serde_json::{json, Value};
 use std::cmp::Ordering;
@@ -18,10 +20,10 @@ use zipora::string::{
 };
 
 const HEADER: &str = r#"From ZV.Common Require Import Base Run.
-From ZV.C20 Require Import Model ModelStr Cases.
+From ZV.C20 Require Import Model ModelStr Cases CasesX.
 Open Scope N_scope.
-Definition case_t : Type := Cases.case.
-Definition ok (c : case_t) : bool := Cases.case_ok c.
+Definition case_t : Type := CasesX.xcase.
+Definition ok (c : case_t) : bool := CasesX.xcase_ok c.
 "#;
 
 fn ord_code(o: Option<Ordering>) -> i64 {
@@ -181,6 +183,7 @@ fn faststr_case(cx: &mut Ctx, a: &[u8], b: &[u8]) {
         Err(p) => cx.sum.fail(cell, None, cj, &format!("panicked: {}", p)),
         Ok(bad) => if !bad.is_empty() { cx.sum.fail(cell, None, cj, &bad.join("; ")); }
     }
+    x::fast_emit(cx, a, b, false);
 }
 
 fn join_case(cx: &mut Ctx, sep: &str, parts: &[String]) {
@@ -317,6 +320,7 @@ fn words_case(cx: &mut Ctx, text: &[u8]) {
             more::push_coq(cx, term, cj);
         }
     }
+    x::bound_emit(cx, text);
 }
 
 fn lex_iter_case(cx: &mut Ctx, strings: &[String], probes: &[String]) {
@@ -515,6 +519,7 @@ pub fn run(args: &Args) {
         emit: true,
     };
     let mut rng = Rng::new(args.seed);
+    x::set_thorough(args.thorough);
     if let Some(f) = &args.replay {
         let v: Value = serde_json::from_str(&std::fs::read_to_string(f).expect("replay file")).expect("json");
         let c = if v.get("case").is_some() { v["case"].clone() } else { v };
@@ -601,7 +606,8 @@ pub fn run(args: &Args) {
         if i < 3 { cx.sum.sample(json!({"a": String::from_utf8_lossy(&a), "b": String::from_utf8_lossy(&b)})); }
     }
     // --- FastStr
-    cx.budget = if args.thorough { 30000 } else { 4000 };
+    // + the allowances of the extension families (c20_x.rs), which do not go through push_coq
+    cx.budget = if args.thorough { 30000 + 6 * 840 } else { 4000 + 840 };
     // deep oracle: every length 0..=130, differently built contents (high-bit bytes, tiny alphabet, boundary bytes)
     for rep in 0..(if args.thorough { 8 } else { 1 }) {
         for n in 0..=130usize {
@@ -610,6 +616,15 @@ pub fn run(args: &Args) {
             let b: Vec<u8> = (0..n).map(|_| *rng.pick(&[b'a', b'b', 0x80, 0xff, 0x7f, 0])).collect();
             more::faststr_deep(&mut cx, &b);
             if rep == 0 && n % 13 == 0 { more::faststr_deep(&mut cx, &vec![b'a'; n]); }
+            if rep == 0 {
+                // model tie at every length (all chunk counts and remainders of the hash paths, needles inside / flipped at the end)
+                x::fast_emit(&mut cx, &a, &a[n / 3..(n / 3 + n / 4 + 1).min(n)], true);
+                if n % 3 == 0 {
+                    let mut nd = b[n / 2..].to_vec();
+                    if let Some(l) = nd.last_mut() { *l ^= 0x80; }
+                    x::fast_emit(&mut cx, &b, &nd, true);
+                }
+            }
         }
     }
     let nfs = if args.thorough { 60000 } else { 4000 };
@@ -719,12 +734,12 @@ pub fn run(args: &Args) {
     more::sortable_long_case(&mut cx, 1 << 20);
     more::sortable_long_case(&mut cx, (1 << 20) + 5);
     wide::fixed_families(&mut cx, args);
-    cx.sum.cell_status("FastStr", "S-only");
+    cx.sum.cell_status("FastStr", "M+S");
     cx.sum.cell_status("StreamingLexIterator", "S-only");
     cx.sum.cell_status("SortableStrVec", "S-only");
     cx.sum.cell_status("ZoSortedStrVec", "S-only");
     cx.sum.cell_status("unicode", "S-only");
-    cx.sum.cell_status("LineProcessor_configs", "S-only");
+    cx.sum.cell_status("LineProcessor_configs", "M+S");
     cx.sum.dist_max("coq_cases", cx.shards.len() as u64);
     let sh = cx.shards.write(&args.out);
     cx.sum.write(&args.out, sh);
